@@ -277,7 +277,7 @@ func runCrashProperty(t *rapid.T, pc crashProgCfg) {
 			newsz += BlockSize
 		}
 		name := "zz_tail"
-		tailRemove := rapid.IntRange(0, 2).Draw(t, "tail_remove") == 0 // ... or it is removed: the shrinker frees it
+		tailRemove := rapid.Bool().Draw(t, "tail_remove") // ... or it is removed: the shrinker frees it
 		var f *MNode
 		steps := []func() error{
 			func() error { return x.Create(LiveRef(x.M.Root), name) },
@@ -299,6 +299,9 @@ func runCrashProperty(t *rapid.T, pc crashProgCfg) {
 					return nil
 				}
 				if tailRemove {
+					// (always with the rest at the commit point: the shrinker starts while the REMOVE is not yet committed)
+					defer func(d time.Duration) { x.SlowCommit = d }(x.SlowCommit)
+					x.SlowCommit = 2 * time.Millisecond
 					return x.Remove(LiveRef(x.M.Root), name)
 				}
 				return x.Setattr(LiveRef(f), &newsz, false)
